@@ -285,13 +285,44 @@ fn main() {
     sink.merge(struct_sweep(&run, &[&DTLS_RECORD], &recs, run.tier.pick(1, 2), &sfx, 48, &extra));
     let magic: Vec<vcommon::en::W> = cat::magic_hellos().into_iter().filter(|w| w.lens.first().map_or(false, |l| l.label == "dtls_length")).collect();
     sink.merge(struct_sweep(&run, &[&DTLS_HANDSHAKE], &magic, 0, &sfx, 64, &extra));
-    for style in [1u8, 3, 4, 6, 7, 8] {
+    for server in [true, false] {
+        sink.merge(grid_sweep(&run, &[&DTLS_HANDSHAKE], 64, &|c, n| cat::hello_grid(server, true, thorough, c, n), &no_wrap, &extra));
+        sink.merge(grid_sweep(&run, &[&DTLS_RECORD], 64, &|c, n| cat::hello_grid(server, true, false, c, n), &|m| cat::dtls_record(0x16, 0xfefd, 0, 1, |w| { w.append(m); }), &extra));
+    }
+    for style in [1u8, 3, 4, 6, 7, 8, 10, 11] {
         use vcommon::en::with_fill_style as wfs;
         sink.merge(struct_sweep(&run, &[&DTLS_HANDSHAKE], &wfs(style, cat::dtls_handshake_messages), 0, &sfx, 64, &extra));
         sink.merge(struct_sweep(&run, &[&DTLS_RECORD], &wfs(style, cat::dtls_records), 0, &sfx, 48, &extra));
     }
     let with_ext: Vec<vcommon::en::W> = cat::hellos_with_extension_lists().into_iter().filter(|w| w.lens.first().map_or(false, |l| l.label == "dtls_length")).collect();
     sink.merge(struct_sweep(&run, &[&DTLS_HANDSHAKE], &with_ext, 0, &sfx, 64, &extra));
+    // "several records in one datagram decode record by record": every ordered pair / selected triples of
+    // catalogue records whose epochs, types and sequence numbers vary, against the explicit single-record loop
+    {
+        let hsm = cat::dtls_handshake_messages();
+        let mut recs: Vec<Vec<u8>> = Vec::new();
+        for epoch in [0u16, 1, 2, 0xffff] {
+            recs.push(cat::dtls_record(0x14, 0xfefd, epoch, 1, |w| { w.u8(1); }).buf);
+            recs.push(cat::dtls_record(0x15, 0xfefd, epoch, 2, |w| { w.u8(1).u8(0); }).buf);
+            recs.push(cat::dtls_record(0x16, 0xfefd, epoch, 3, |w| { w.append(&hsm[0]); }).buf);
+            recs.push(cat::dtls_record(0x16, 0xfeff, epoch, 0xffff_ffff_ffff, |w| { w.append(&hsm[hsm.len() - 1]); }).buf);
+            recs.push(cat::dtls_record(0x17, 0xfefd, epoch, 4, |w| { w.fill(3, 1); }).buf);
+        }
+        let n = recs.len();
+        let pairs: Vec<(usize, usize)> = (0..n).flat_map(|a| (0..n).map(move |b| (a, b))).collect();
+        let sp = par_run(run.threads, pairs.len(), |i, sink| {
+            let (a, b) = pairs[i];
+            let mut d = recs[a].clone();
+            d.extend_from_slice(&recs[b]);
+            vchecks::multi::check(&d, sink);
+            for c in [0usize, 7, 13] {
+                let mut t = d.clone();
+                t.extend_from_slice(&recs[c % n]);
+                vchecks::multi::check(&t, sink);
+            }
+        });
+        sink.merge(sp);
+    }
     // version x cookie length grid: all 256 cookie lengths under 12 versions, for both cookie-carrying messages
     let mut grid: Vec<vcommon::en::W> = Vec::new();
     for ver in [0xfeffu16, 0xfefe, 0xfefd, 0xfefc, 0xfe00, 0x0303, 0x0301, 0x0000, 0xffff, 0x8000, 0x7fff, 0xff00] {
@@ -362,7 +393,7 @@ fn main() {
     cov.insert("catalogue_handshake_messages".into(), json!(nhs));
     cov.insert("catalogue_records".into(), json!(nrecs));
     cov.insert("rule".into(), json!(format!(
-        "record header: all 256 types, all 65536 epochs, versions and declared lengths (10 cut points each), every byte of the 48-bit sequence number x all 256 values, all single- and double-bit patterns of the 64-bit epoch+sequence word, every prefix of boundary-length records; handshake header: (length, offset, fragment length) over a 7^3 boundary cube for 4 sizes x 7 types, all 256 types, all 65536 message_seq, fragment offsets ({}); {} catalogue handshake messages and {} records x every combination of <= {} deviations; all 256 cookie lengths; all strings of bounded length over a positional alphabet. Oracles: reference 13-byte framing (Incomplete iff strict prefix, exact Needed, cap), strict DTLS walkers, is_fragment() predicate. Non-trivial: not cut inside a fixed header",
+        "record header: all 256 types, all 65536 epochs, versions and declared lengths (10 cut points each), every byte of the 48-bit sequence number x all 256 values, all single- and double-bit patterns of the 64-bit epoch+sequence word, every prefix of boundary-length records; handshake header: (length, offset, fragment length) over a 7^3 boundary cube for 4 sizes x 7 types, all 256 types, all 65536 message_seq, fragment offsets ({}); {} catalogue handshake messages and {} records x every combination of <= {} deviations; all 256 cookie lengths; all strings of bounded length over a positional alphabet. datagrams of 2-3 records over 4 epochs x 5 record kinds against the explicit single-record loop; Oracles: reference 13-byte framing (Incomplete iff strict prefix, exact Needed, cap), strict DTLS walkers, is_fragment() predicate. Non-trivial: not cut inside a fixed header",
         if thorough { "all 2^24" } else { "every 251st of 2^24 plus 16-bit boundaries" }, nhs, nrecs, d)));
     let code = run.finish(
         &sink,
